@@ -52,13 +52,14 @@ type dirState struct {
 
 // World is one transport instance with two endpoints.
 type World struct {
-	mu      sync.Mutex
-	pending []*op
-	conns   [][2]*dirState // per connection: 0: client->server, 1: server->client
-	broken  bool           // connections broken: every op fails
-	seq     int
-	running atomic.Int64
-	last    [3]int // (conn, ep, kind) of the last executed op, for canonical order
+	mu               sync.Mutex
+	pending          []*op
+	conns            [][2]*dirState // per connection: 0: client->server, 1: server->client
+	broken           bool           // connections broken: every op fails
+	failedSinceBreak int            // failures delivered since the break
+	seq              int
+	running          atomic.Int64
+	last             [3]int // (conn, ep, kind) of the last executed op, for canonical order
 	// Observations, appended by the scheduler
 	Log []string
 }
@@ -208,6 +209,11 @@ func (w *World) enabled(opt Options) []alternative {
 			base := 0
 			if !first {
 				base = 1
+				if w.broken && w.failedSinceBreak == 0 {
+					// which parked operation notices the broken connection first is not a
+					// further deviation: every order of the first failure is explored
+					base = -1
+				}
 			}
 			first = false
 			alts = append(alts, alternative{o: o, fail: true, cost: base, descr: fmt.Sprintf("%d:%s.%s:FAIL", o.conn, []string{"client", "server"}[o.ep], []string{"read", "write"}[o.kind])})
@@ -280,6 +286,9 @@ func (w *World) apply(a alternative) {
 	}
 	if a.fail {
 		o := a.o
+		if w.broken {
+			w.failedSinceBreak++
+		}
 		w.last = [3]int{o.conn, o.ep, int(o.kind)}
 		for i, p := range w.pending {
 			if p == o {
@@ -563,6 +572,9 @@ func ExploreShard(t *testing.T, sc *Scenario, bound int, maxExec int, shard, nsh
 				c := x.Costs[i][alt]
 				if c == 0 {
 					c = 1
+				}
+				if c < 0 {
+					c = 0 // free alternative
 				}
 				if spent+c > bound {
 					continue
